@@ -40,7 +40,11 @@ LEVEL = "proof"
 ASSUMPTIONS = [
     "caller obligation from the property statement: no two write ports (with a non-zero enable) address the same row in one cycle; addresses below depth",
     "(depth, width, read/write port counts, init, transparency subsets, granularity where accepted) swept as listed; unbounded in inputs and history length",
+    "bounded part: the two ILVT memories without any write port (a ROM) are only searched from reset to depth 8 (no contract of this module describes the residual state of an empty live-value table); listed under bounded_parts, not counted as proved",
 ]
+LEVEL_NOTE = ("Trusted: Amaranth 0.5.9 elaboration and the NIR cell semantics encoded in engine/nir2smt.py (cross-checked on every run against Amaranth's Python simulator), z3 5.1.0; the ideal memory is the real amaranth.lib.memory.Memory "
+              "instantiated next to the implementation (product machine). Bounded: the configuration sweep listed in the evidence; the ILVT memories with zero write ports are bounded-search only (bounded_parts). "
+              "Unbounded: input valuations and history length (one-step induction over a relational invariant with ghost live-value tables). Two known findings (ILVT + granularity; ROM with non-empty init) are listed in known_findings.json.")
 
 
 class Product(Elaboratable):
